@@ -138,6 +138,15 @@ func (kr *kindRules) scan(w *World, f *ssa.Function) {
 		switch x := in.(type) {
 		case *ssa.Call:
 			kr.roundCall(w, f, x, pos, roundOrd)
+			if bn := builtinName(x); (bn == "min" || bn == "max") && len(x.Call.Args) >= 2 && isStringType(x.Call.Args[0].Type()) {
+				for _, a := range x.Call.Args {
+					if av := ke.Eval(a); av != nil && av.StrKnown && len(av.Str) == 1 && av.Str[0] != 0 {
+						callOrd["strorder"]++
+						kr.add("KIND-CALL", f, fmt.Sprintf("string order #%d", callOrd["strorder"]), pos, Violated, "builtin "+bn+" is applied to the text of a numeric ID field ("+av.String()+"): strings are ordered lexicographically (\"10\" < \"9\"), not by value -- "+shortInstr(x))
+						break
+					}
+				}
+			}
 			// CUTSET: strings.Trim/TrimLeft/TrimRight take a SET of characters; handing them a
 			// piece of ID text (digits, separator) strips digits of the neighbouring field
 			if calleeIs(x, "strings", "TrimLeft") || calleeIs(x, "strings", "TrimRight") || calleeIs(x, "strings", "Trim") {
@@ -231,6 +240,15 @@ func (kr *kindRules) scan(w *World, f *ssa.Function) {
 			}
 		case *ssa.BinOp:
 			kr.roundBinOp(w, f, x, pos, roundOrd)
+			if (x.Op == token.LSS || x.Op == token.LEQ || x.Op == token.GTR || x.Op == token.GEQ) && isStringType(x.X.Type()) {
+				for _, a := range []ssa.Value{x.X, x.Y} {
+					if av := ke.Eval(a); av != nil && av.StrKnown && len(av.Str) == 1 && av.Str[0] != 0 {
+						callOrd["strorder"]++
+						kr.add("KIND-CALL", f, fmt.Sprintf("string order #%d", callOrd["strorder"]), pos, Violated, "the texts of numeric ID fields ("+av.String()+") are compared with "+x.Op.String()+": strings are ordered lexicographically (\"10\" < \"9\"), not by value -- "+shortInstr(x))
+						break
+					}
+				}
+			}
 		case *ssa.Convert:
 			kr.roundConvert(w, f, x, pos, roundOrd)
 		}
@@ -418,6 +436,21 @@ func (kr *kindRules) roundConvert(w *World, f *ssa.Function, x *ssa.Convert, pos
 	}
 	k := all & vfam
 	idx := all & ks(kLON, kLAT, kX, kY)
+	if hc, ok := src.(*ssa.Call); ok && (k != 0 || idx != 0) {
+		if g := calleeOf(hc); g != nil && w.InModule(g) && g.Blocks != nil && len(hc.Call.Args) == 1 {
+			for _, ret := range returnsOf(g) {
+				if len(ret.Results) != 1 {
+					continue
+				}
+				if rc, isC := resolve(ret.Results[0]).(*ssa.Call); isC {
+					if calleeIs(rc, "math", "Round") || calleeIs(rc, "math", "Ceil") || calleeIs(rc, "math", "RoundToEven") {
+						ord["helper"]++
+						kr.add("ROUND", f, fmt.Sprintf("index rounding helper #%d", ord["helper"]), pos, Violated, "the position converted to a grid index passes through "+w.FuncName(g)+", which can return math."+calleeOf(rc).Name()+"(position): an index is floor(position), snapping to the nearest integer moves points that lie just below a cell boundary into the next cell (and differently at every zoom)")
+					}
+				}
+			}
+		}
+	}
 	if k != 0 {
 		ord["conv"]++
 		sub := fmt.Sprintf("float-to-integer conversion #%d of a %s value", ord["conv"], k)
